@@ -239,3 +239,18 @@ def leading_walks(lex: Module, qual: str = "LexerTokenStream.get_doxygen", const
                     continue
                 stack.append((s_, popped, rec, clr, psh, trail))
     return out
+
+
+def kept_restored(fn: ast.FunctionDef) -> bool:
+    """The tokens the trailing scan keeps (appended to an accumulator K) end up in front of the unscanned rest of the
+    buffer, in their original order:  K.extend(buf); self.tokbuf = K   or   buf.extendleft(reversed(K))."""
+    keeps = {norm(c.func.value) for c in ast.walk(fn) if isinstance(c, ast.Call) and isinstance(c.func, ast.Attribute) and c.func.attr == "append" and len(c.args) == 1
+             and isinstance(c.args[0], ast.Name) and norm(c.func.value) != "comments"}
+    txt = norm(fn)
+    bufs = {"tokbuf", "self.tokbuf"}
+    for k in keeps:
+        if any(f"{k}.extend({b})" in txt for b in bufs) and f"self.tokbuf = {k}" in txt:
+            return True
+        if any(f"{b}.extendleft(reversed({k}))" in txt or f"{b}.extendleft({k}[::-1])" in txt for b in bufs):
+            return True
+    return False
